@@ -53,7 +53,9 @@ SCENARIOS = {
         src='<dtml-let v="a+1" u=a><dtml-var v>:<dtml-var u></dtml-let><dtml-with o>&dtml-p;</dtml-with>'
             '<dtml-try><dtml-raise KeyError>k<dtml-var a></dtml-raise><dtml-except KeyError>E&dtml-error_value;'
             '</dtml-try><dtml-unless a>U</dtml-unless><dtml-call "seq.append(a)"><dtml-comment>c</dtml-comment>'
-            '<dtml-var expr="len(seq)"><dtml-try>x<dtml-finally>F</dtml-try><dtml-if expr="a > 0">pos<dtml-elif a>nz<dtml-else>zero</dtml-if>'),
+            '<dtml-var expr="len(seq)"><dtml-try>x<dtml-finally>F</dtml-try><dtml-if expr="a > 0">pos<dtml-elif a>nz<dtml-else>zero</dtml-if>'
+            # (a namespace of its own for the body: this render's own)
+            '<dtml-with o only><dtml-var p><dtml-let q=p>&dtml-q;</dtml-let><dtml-if p><dtml-var p></dtml-if></dtml-with>'),
     'batch': dict(
         src='<dtml-in seq size=2 start=st orphan=0 prefix=it sort=x><dtml-var it_item fmt=upper size=3>'
             '<dtml-if sequence-end>(<dtml-var next-sequence-start-number missing=none>)</dtml-if></dtml-in>'
